@@ -55,6 +55,30 @@ def pr_ops(rng, names, n, hist):
     return ops
 
 
+def prn_ops(rng, names, n, hist):
+    """op lines `prn <iterations> <volume> <TK> <n> {name moles}` for the no-argument calc_PR() of gases.cpp"""
+    ops = []
+    for _ in range(n):
+        k = min(rng.choice([1, 1, 2, 2, 3, 4]), len(names))
+        ns = rng.sample(names, k)
+        if rng.random() < 0.3 and "H2O(g)" in names and "H2O(g)" not in ns:
+            ns[rng.randrange(k)] = "H2O(g)"
+        tk = rng.uniform(273.15, 473.15)
+        vol = rng.choice([1.0, 0.1, 10.0, 10 ** rng.uniform(-2, 2)])
+        u = rng.random()
+        vm = 10 ** rng.uniform(-1.7, 0) if u < 0.55 else 10 ** rng.uniform(0, 3.4)
+        fr = [rng.random() if rng.random() > 0.1 else 0.0 for _ in ns]
+        if sum(fr) == 0:
+            fr[0] = 1.0
+        moles = [f / sum(fr) * vol / vm for f in fr]
+        if rng.random() < 0.02:
+            moles = [0.0] * k
+        it = rng.choice([0, 1, 3, 60])
+        hist["numerical_path_ops"] = hist.get("numerical_path_ops", 0) + 1
+        ops.append(f"prn {it} {hd(vol)} {hd(tk)} {k} " + " ".join(f"{hs(g)} {hd(m)}" for g, m in zip(ns, moles)))
+    return ops
+
+
 EXTRA_GASES = [  # names that only the hard-coded table of calc_gas_binary_parameter knows
     ("Ethane(g)", 305.4, 48.2, 0.099), ("Propane(g)", 369.8, 41.9, 0.152), ("Methane(g)", 190.6, 45.4, 0.008),
     ("Xenon(g)", 289.7, 57.6, 0.008)]
